@@ -534,8 +534,9 @@ def plain_ser_tree(rng, depth):
 # ------------------------------------------------------------------ hash-only currying helpers of chia-puzzle-types
 def distinct_trees(rng, n):
     seen, out = set(), []
+    small = not isinstance(rng, C.SplitMix64)
     while len(out) < n:
-        t = plain_ser_tree(rng, 1 + rng.below(3)).hex()
+        t = rng.choice(SMALL_TREES) if small else plain_ser_tree(rng, 1 + rng.below(3)).hex()
         if t not in seen:
             seen.add(t)
             out.append(t)
@@ -544,8 +545,12 @@ def distinct_trees(rng, n):
 
 def distinct_ints(rng, n, hi):
     seen = []
+    small = not isinstance(rng, C.SplitMix64)
     while len(seen) < n:
-        v = rng.choice([0, 1, 2, 3, 5, 7, 10, 100, 127, 128, 255, 256, 300, 1000, 10000, 32767, 32768, 65535]) if rng.chance(1, 2) else rng.below(hi)
+        if small:
+            v = rng.choice([0, 0, 1, 2, 5, 22, 23])
+        else:
+            v = rng.choice([0, 1, 2, 3, 5, 7, 10, 100, 127, 128, 255, 256, 300, 1000, 10000, 32767, 32768, 65535]) if rng.chance(1, 2) else rng.below(hi)
         if v < hi and v not in seen:
             seen.append(v)
     return seen
@@ -571,6 +576,27 @@ HELPERS = {
 }
 
 
+SMALL_TREES = ["80", "00", "01", "05", "17", "18", "ff0080", "ff8000", "ff0105", "ffff008080"]
+
+
+def small_mode(rng):
+    """a generator context whose choices are zero / small integers (< 24) and trees made of one-byte atoms, so that
+    curried arguments go through the small-atom and precomputed-table paths"""
+    class R:
+        def bytes(self, n):
+            return rng.bytes(n)
+
+        def chance(self, a, b):
+            return rng.chance(a, b)
+
+        def choice(self, l):
+            return rng.choice(l)
+
+        def below(self, n):
+            return rng.below(min(n, 24))
+    return R()
+
+
 def helper_lines(rep, rng, per_helper):
     """one block of cases per `pub fn curry_tree_hash` found in the source NOW (translator scan): a helper
     without a generator here is reported, so a new helper cannot stay unchecked"""
@@ -586,8 +612,9 @@ def helper_lines(rep, rng, per_helper):
         if n not in HELPERS:
             rep.add_broken("oracle-coverage", "%s::curry_tree_hash" % n, "no thash.ohelper case generator for this helper")
             continue
-        for _ in range(per_helper):
-            lines.append("thash.ohelper %s %s" % (n, " ".join(HELPERS[n](rng))))
+        for k in range(per_helper):
+            small = k < max(2, per_helper // 3)
+            lines.append("thash.ohelper %s %s" % (n, " ".join(HELPERS[n](small_mode(rng) if small else rng))))
     return lines
 
 # ------------------------------------------------------------------ the check
@@ -734,6 +761,18 @@ def run(ctx):
                                                     "max_expanded_size_log2": max(bucket(m[2]) for m in meta.values())})
 
     olines = [s.line("thash.oracle") for s, _, _ in scripts]
+    # finite part of the oracle only (no model cost): EVERY one-byte atom 0x00..0xff, the empty atom and two-byte atoms
+    # with a leading zero, in new_atom and byte-heap form, alone, as list elements and under pairs.  The oracle op hashes
+    # each node with every routine AND through the hash-only encoder (TreeHasher / ToTreeHash) against the reference
+    for lo in range(0, 256, 32):
+        sc = Script()
+        ids = [sc.atom(b"")] + [sc.atom(bytes([v])) for v in range(lo, lo + 32)] + [sc.batom(bytes([v])) for v in range(lo, lo + 32)]
+        ids += [sc.atom(bytes([0, v])) for v in (0, 1, 0x17, 0x18, 0x7f, 0x80, 0xff) if lo == 0]
+        lst = sc.small(0)
+        for i in reversed(ids):
+            lst = sc.pair(i, lst)
+        sc.pair(ids[1], ids[2])
+        olines.append(sc.line("thash.oracle"))
     oout = impl_only(ctx, olines)
     for l, o in zip(olines, oout):
         if not o.startswith("OK") and o != "UNCHECKED-TIMEOUT":
@@ -853,6 +892,14 @@ def run(ctx):
             continue
         toks = [t for t in s.toks if t[0] in "sabp"]
         oc.append("thash.ocurry " + " ".join(toks) + " | " + " ".join(str(i) for i in idx))
+    sc = Script()
+    vals = [sc.atom(b"\x00"), sc.batom(b"\x00"), sc.atom(b""), sc.atom(b"\x00\x00"), sc.atom(b"\x00\x17"), sc.small(0), sc.small(1),
+            sc.small(5), sc.small(23), sc.small(24), sc.atom(b"\x17"), sc.batom(b"\x05"), sc.atom(b"\x80"), sc.atom(r3.bytes(32))]
+    pr = sc.pair(vals[0], vals[5])
+    toks = " ".join(sc.toks)
+    for prog, args in ((vals[6], [vals[0]]), (vals[0], [vals[7]]), (pr, [vals[1], vals[2], vals[3]]), (vals[6], vals[:5]),
+                       (vals[13], vals), (vals[9], [pr, vals[0], pr, vals[8]]), (vals[6], [])):
+        oc.append("thash.ocurry %s | %s" % (toks, " ".join(str(i) for i in [prog] + list(args))))
     oo = impl_only(ctx, oc)
     for l, o in zip(oc, oo):
         if o != "OK" and o != "UNCHECKED-TIMEOUT":
